@@ -26,6 +26,60 @@ const (
 	statikPkg = "github.com/osmosis-labs/osmosis/v31/client/docs/statik"
 )
 
+// FixturePrefix is the import-path prefix of the checker's own self-test fixtures (module osmolint).
+const FixturePrefix = "osmolint/fixtures/"
+
+// LoadFixture loads the self-test fixture packages under <checker>/fixtures (plain Go, standard library only) into a
+// Program shaped like the real one, with RepoDir = <checker>/fixtures so that files appear as x/fx/....
+func LoadFixture(checkerDir string) (*Program, error) {
+	t0 := time.Now()
+	env := []string{}
+	for _, e := range os.Environ() {
+		if strings.HasPrefix(e, "GOFLAGS=") || strings.HasPrefix(e, "GOWORK=") || strings.HasPrefix(e, "GOPROXY=") ||
+			strings.HasPrefix(e, "GOSUMDB=") || strings.HasPrefix(e, "GOTOOLCHAIN=") {
+			continue
+		}
+		env = append(env, e)
+	}
+	env = append(env, "GOFLAGS=-mod=mod", "GOWORK=off", "GOPROXY=off", "GOSUMDB=off", "GOTOOLCHAIN=local")
+	cfg := &packages.Config{Mode: packages.LoadSyntax | packages.NeedDeps | packages.NeedModule, Dir: checkerDir, Env: env}
+	pkgs, err := packages.Load(cfg, "./fixtures/...")
+	if err != nil {
+		return nil, fmt.Errorf("fixtures: %w", err)
+	}
+	var roots []*packages.Package
+	var errs []string
+	for _, p := range pkgs {
+		for _, e := range p.Errors {
+			errs = append(errs, e.Error())
+		}
+		if strings.HasPrefix(p.PkgPath, FixturePrefix) {
+			roots = append(roots, p)
+		}
+	}
+	if len(errs) > 0 || len(roots) == 0 {
+		return nil, fmt.Errorf("fixtures: %d packages, errors: %s", len(roots), strings.Join(errs, "; "))
+	}
+	sort.Slice(roots, func(i, j int) bool { return roots[i].PkgPath < roots[j].PkgPath })
+	prog := ssa.NewProgram(roots[0].Fset, ssa.InstantiateGenerics)
+	isRoot := map[*packages.Package]bool{}
+	for _, p := range roots {
+		isRoot[p] = true
+	}
+	created := map[*packages.Package]*ssa.Package{}
+	packages.Visit(pkgs, nil, func(p *packages.Package) {
+		if p.Types == nil {
+			return
+		}
+		if isRoot[p] {
+			created[p] = prog.CreatePackage(p.Types, p.Syntax, p.TypesInfo, true)
+		} else {
+			created[p] = prog.CreatePackage(p.Types, nil, nil, true)
+		}
+	})
+	return assemble(checkerDir+"/fixtures", prog, roots, created, t0), nil
+}
+
 var Patterns = []string{"./x/...", "./app/...", "./osmomath/...", "./osmoutils/...", "./ante/...", "./wasmbinding/...", "./x/epochs/...", "./x/ibc-hooks/...", "./ingest/..."}
 
 type Program struct {
@@ -137,6 +191,11 @@ func Load() (*Program, error) {
 			created[p] = prog.CreatePackage(p.Types, nil, nil, true)
 		}
 	})
+	return assemble(dir, prog, roots, created, t0), nil
+}
+
+// assemble builds the SSA program and enumerates its functions.
+func assemble(dir string, prog *ssa.Program, roots []*packages.Package, created map[*packages.Package]*ssa.Package, t0 time.Time) *Program {
 	P := &Program{RepoDir: dir, Fset: prog.Fset, Pkgs: roots, ByPath: map[string]*packages.Package{}, SSA: prog, SSAPkgs: map[string]*ssa.Package{}}
 	for _, p := range roots {
 		P.ByPath[p.PkgPath] = p
@@ -203,7 +262,7 @@ func Load() (*Program, error) {
 	dbg("enumerate", t0)
 	P.NumFuncs = len(P.allFuncs)
 	P.LoadTime = time.Since(t0)
-	return P, nil
+	return P
 }
 
 // AllFuncs returns every function with a body (deterministic order).
@@ -245,7 +304,7 @@ func IsSubjectFile(name string) bool {
 // Pkg returns the package with the given path suffix relative to the main module
 // (e.g. "x/lockup/keeper"), also resolving the sub-modules osmomath, osmoutils, x/epochs.
 func (p *Program) Pkg(rel string) *packages.Package {
-	for _, cand := range []string{ModPrefix + "/v31/" + rel, ModPrefix + "/" + rel} {
+	for _, cand := range []string{ModPrefix + "/v31/" + rel, ModPrefix + "/" + rel, FixturePrefix + rel} {
 		if pk, ok := p.ByPath[cand]; ok {
 			return pk
 		}
